@@ -88,6 +88,19 @@ func NewSyntaxError(span Span, message string) *Error {
 }
 
 func (self Error) Display(program string) string {
+	// take special action if there is no useful span (the error concerns the whole file)
+	if self.Span.Start.Line == 0 &&
+		self.Span.Start.Column == 0 &&
+		self.Span.End.Line == 0 &&
+		self.Span.End.Column == 0 {
+		return fmt.Sprintf(
+			"\x1b[1;36m%v\x1b[39m in %s\x1b[0m\n\x1b[1;31m%s\x1b[0m\n",
+			self.Kind,
+			self.Span.Filename,
+			self.Message,
+		)
+	}
+
 	lines := strings.Split(program, "\n")
 
 	line1 := ""
